@@ -176,6 +176,12 @@ func c19f(c *Ctx) {
 					}
 				}
 				c.Check(okR, fmt.Sprintf("builder/%s@%d", fn.Name(), c.T(fn).callOrd[ci]), c.W.Pos(ci.Pos()), "the builder receives the character read or a constant", fn.Name()+" accumulates "+pretty(t)+", which is neither the character read nor a constant")
+				// ... every one of them: a loop that copies the characters it reads copies each
+				// (a character that is consumed but not written is missing from the literal)
+				if okR && !isConst && loopHeaders(fn)[ci.Block()] != nil {
+					w, skip := iterationSkips(fn, ci.(ssa.Instruction))
+					c.Check(!skip, fmt.Sprintf("builder/%s@%d/every-character", fn.Name(), c.T(fn).callOrd[ci]), c.W.Pos(ci.Pos()), "every character the loop reads is written", fn.Name()+" can consume a character without writing it (an iteration can reach "+c.nearPos(w)+" without the write): the literal would not be what the source spells")
+				}
 			}
 		}
 		instrs(fn, func(in ssa.Instruction) {
